@@ -49,6 +49,7 @@ theorem applyFrame_carries (idx : Nat) (f : Frame) (cjs : Bool) {v : JsVal} {fl 
             exceptionFromValue, wrapJSFuncE, returnErr, wrapReflectErr, hu, Carries]
       · simp [Frame.unwraps] at hu
     | ja => simp [Frame.swallows] at hsw
+    | fot => simp [Frame.swallows] at hsw
     | rfw => simp [Frame.rewraps] at hrw
     | _ =>
       cases cjs <;>
@@ -67,6 +68,7 @@ theorem applyFrame_carries (idx : Nat) (f : Frame) (cjs : Bool) {v : JsVal} {fl 
             exceptionFromValue, wrapJSFuncE, returnErr, wrapReflectErr, hu, Carries]
       · simp [Frame.unwraps] at hu
     | ja => simp [Frame.swallows] at hsw
+    | fot => simp [Frame.swallows] at hsw
     | rfw => simp [Frame.rewraps] at hrw
     | _ =>
       cases cjs <;>
@@ -77,9 +79,9 @@ theorem applyFrame_carries (idx : Nat) (f : Frame) (cjs : Bool) {v : JsVal} {fl 
 
 /-- A swallowing catch (or an async function) receives the value and ends the propagation. -/
 theorem applyFrame_swallow (idx : Nat) (f : Frame) (cjs : Bool) {v : JsVal} {fl : Flow}
-    (hsw : f.swallows = true) (hc : Carries v fl) :
+    (hsw : f.swallows = true) (hrp : f.replaces = false) (hc : Carries v fl) :
     (applyFrame idx f cjs fl).1 = .normal ∧ ∀ l ∈ (applyFrame idx f cjs fl).2, LogOk v l := by
-  cases f <;> simp [Frame.swallows] at hsw
+  cases f <;> simp [Frame.swallows] at hsw <;> simp [Frame.replaces] at hrp
   · rename_i k
     rcases carries_cases hc with ⟨o, rfl⟩ | ⟨t, o, rfl⟩ <;>
       cases k <;> simp [JsKind.swallows, JsKind.hasCatch, JsKind.rethrows] at hsw <;>
@@ -117,7 +119,7 @@ theorem evalSeg_carries (s : Seg) (ijs : Bool) {v : JsVal} {fl : Flow}
 
 /-- With swallowing frames allowed: the flow stays "carries v" or has become normal; every catch saw v. -/
 theorem evalSeg_carries_or_normal (s : Seg) (ijs : Bool) {v : JsVal} {fl : Flow}
-    (hrw : ∀ q ∈ s, q.2.rewraps = false)
+    (hrw : ∀ q ∈ s, q.2.rewraps = false ∧ q.2.replaces = false)
     (hu : v.goErrValue = none ∨ ∀ q ∈ s, q.2.unwraps = false) (hc : fl = .normal ∨ Carries v fl) :
     ((evalSeg s fl ijs).1 = .normal ∨ Carries v (evalSeg s fl ijs).1) ∧
       ∀ l ∈ (evalSeg s fl ijs).2, LogOk v l := by
@@ -144,11 +146,11 @@ theorem evalSeg_carries_or_normal (s : Seg) (ijs : Bool) {v : JsVal} {fl : Flow}
         rw [applyFrame_normal_log _ _ _ l hl]; exact Or.inl rfl
       · cases hs : f.swallows with
         | true =>
-          obtain ⟨a1, a2⟩ := applyFrame_swallow i f (headIsJS tl ijs) hs hcar
+          obtain ⟨a1, a2⟩ := applyFrame_swallow i f (headIsJS tl ijs) hs (hrw (i, f) (List.mem_cons_self ..)).2 hcar
           exact ⟨Or.inl a1, a2⟩
         | false =>
           obtain ⟨a1, a2⟩ := applyFrame_carries i f (headIsJS tl ijs) hs
-            (hrw (i, f) (List.mem_cons_self ..)) hf hcar
+            (hrw (i, f) (List.mem_cons_self ..)).1 hf hcar
           exact ⟨Or.inr a1, a2⟩
     refine ⟨by simpa [evalSeg] using key.1, ?_⟩
     intro l hl
@@ -270,7 +272,7 @@ theorem runJobs_carries (p : Payload) {v : JsVal} (hp : Carries v p.flow) :
 
 /-- Swallowing frames allowed: whatever the jobs log is a finally / iterator close or a catch of `v`. -/
 theorem runJobs_log_ok (p : Payload) {v : JsVal} (hp : Carries v p.flow) :
-    ∀ ss : List Seg, (∀ s ∈ ss, ∀ q ∈ s, q.2.rewraps = false) →
+    ∀ ss : List Seg, (∀ s ∈ ss, ∀ q ∈ s, q.2.rewraps = false ∧ q.2.replaces = false) →
       (v.goErrValue = none ∨ ∀ s ∈ ss, ∀ q ∈ s, q.2.unwraps = false) →
       ∀ l ∈ (runJobs p ss).log, LogOk v l := by
   intro ss
